@@ -6,7 +6,9 @@ import (
 	"go/token"
 	"go/types"
 	"os"
+	"path/filepath"
 	"sort"
+	"strconv"
 	"strings"
 
 	"golang.org/x/tools/go/callgraph"
@@ -111,6 +113,9 @@ func LoadDir(dir string, goarch string, useCHA bool, minLib int) (*World, error)
 		SSAPkg: map[string]*ssa.Package{}, funcs: map[string]*ssa.Function{},
 		pkgOfFn: map[*ssa.Function]*packages.Package{}}
 	packages.Visit(pkgs, nil, func(p *packages.Package) { w.All[p.PkgPath] = p })
+	for _, p := range pkgs {
+		normalizeComparisons(p)
+	}
 	prog, _ := ssautil.AllPackages(pkgs, ssa.InstantiateGenerics)
 	prog.Build()
 	w.Prog = prog
@@ -347,4 +352,105 @@ func readFileCached(name string) ([]byte, error) {
 		fileCache[name] = b
 	}
 	return b, err
+}
+
+
+// localInScope reports whether name resolves, at the position pos (as rendered
+// by Pos), to an object declared inside a function (not a package-level or
+// universe name).
+func (w *World) localInScope(pos, name string) bool {
+	parts := strings.Split(pos, ":")
+	if len(parts) < 3 {
+		return false
+	}
+	line, err1 := strconv.Atoi(parts[len(parts)-2])
+	col, err2 := strconv.Atoi(parts[len(parts)-1])
+	if err1 != nil || err2 != nil {
+		return false
+	}
+	fname := filepath.Join(w.Dir, strings.Join(parts[:len(parts)-2], ":"))
+	var tf *token.File
+	w.Fset.Iterate(func(f *token.File) bool {
+		if f.Name() == fname {
+			tf = f
+			return false
+		}
+		return true
+	})
+	if tf == nil || line < 1 || line > tf.LineCount() {
+		return false
+	}
+	p := tf.LineStart(line) + token.Pos(col-1)
+	for _, pkg := range w.All {
+		for _, f := range pkg.Syntax {
+			if f.Pos() <= p && p < f.End() && w.Fset.File(f.Pos()) == tf {
+				sc := pkg.Types.Scope().Innermost(p)
+				if sc == nil {
+					return false
+				}
+				_, obj := sc.LookupParent(name, p)
+				if obj == nil {
+					return false
+				}
+				return isFuncLocal(obj, pkg.Types)
+			}
+		}
+	}
+	return false
+}
+
+func isFuncLocal(obj types.Object, pkg *types.Package) bool {
+	par := obj.Parent()
+	if par == nil || par == types.Universe || par == pkg.Scope() {
+		return false
+	}
+	// file scopes hold imports only; anything deeper is inside a function
+	if par.Parent() == pkg.Scope() {
+		_, isPkgName := obj.(*types.PkgName)
+		return !isPkgName
+	}
+	return true
+}
+
+
+// normalizeComparisons rewrites, in the syntax trees of the packages under
+// analysis (before SSA is built from them), every comparison into one
+// canonical orientation: a constant (or nil) operand stands on the right
+// (`12 <= len(x)` becomes `len(x) >= 12`), and a comparison of two
+// non-constant operands uses < or <= (`a > b` becomes `b < a`).  The
+// orientation of a comparison carries no meaning, and the rules — which
+// match the shapes of guards, loop conditions and bit tests — then see one
+// form whichever way the source spells it.  Only operand order and the
+// operator are changed; type information (keyed by node) stays valid.
+func normalizeComparisons(p *packages.Package) {
+	info := p.TypesInfo
+	if info == nil {
+		return
+	}
+	isConst := func(e ast.Expr) bool {
+		tv, ok := info.Types[e]
+		return ok && (tv.Value != nil || tv.IsNil())
+	}
+	mirror := map[token.Token]token.Token{token.LSS: token.GTR, token.GTR: token.LSS, token.LEQ: token.GEQ, token.GEQ: token.LEQ, token.EQL: token.EQL, token.NEQ: token.NEQ}
+	for _, f := range p.Syntax {
+		ast.Inspect(f, func(n ast.Node) bool {
+			be, ok := n.(*ast.BinaryExpr)
+			if !ok {
+				return true
+			}
+			m, isCmp := mirror[be.Op]
+			if !isCmp {
+				return true
+			}
+			cx, cy := isConst(be.X), isConst(be.Y)
+			switch {
+			case cx && cy:
+			case cx && !cy:
+				be.X, be.Y, be.Op = be.Y, be.X, m
+			case !cx && !cy && (be.Op == token.GTR || be.Op == token.GEQ):
+				be.X, be.Y, be.Op = be.Y, be.X, m
+			}
+			return true
+		})
+	}
 }
